@@ -13,6 +13,24 @@ HOOK_COMMITS = []   # no guarded source change is committed in /repo; overlays o
 NOT_CLAIMED = {}
 
 CHECKS = {
+    "C01": {
+        "level": "exploration",
+        "manifest": {
+            "technique": "model-based property-based testing (rapid): generated typed programs rendered with minimal parentheses, run on the real parser+interpreter and compared with an independent reference evaluator; layout metamorphosis; determinism re-runs",
+            "level_text": "Programs from a typed generator (all operators, scoping events, if/while/for/switch/match/break/continue/early return, user and recursive functions, builtins, path/query/body inputs, 6% ill-typed operands) are pretty-printed with only the parentheses the documented precedence requires, parsed and executed by the real interpreter, and the outcome (value with int/float kept apart, status, or error) must equal the reference evaluator's; a second layout of the same tree and repeated evaluations must agree. Exploration over generated programs; says nothing about constructs the generator does not emit.",
+            "level_note": "Trusts the reference evaluator harness/lang/eval.go (rules marked O in DESIGN.md §2.5 pin observed behaviour rather than documented behaviour) and the printer. Integer overflow, equality on arrays/objects, toString of null/containers are unspecified and discarded (counted). Lambdas/pipes have no concrete syntax and are not covered.",
+        },
+        "rule": ("rapid-generated programs (<=3 functions, <=2 routes, expression depth <=4, block nesting <=3, counter-bounded loops) with 1-3 requests each; "
+                 "non-trivial = the program has a data-dependent branch/loop/match, the reference executed >=15 steps, and it contains either two binary operators of different precedence nested without the tree shape being the default one, or a scoping event (\"$\" updating an outer variable, redeclaration after block exit / in the same scope, use after block exit) or a user-function call; distinct = hash of (rendered source, requests)"),
+        "assumptions": [
+            "reference semantics: precedence/associativity, arithmetic, coercion, short-circuit, block scoping, control flow from the documentation and the property text; error conditions and builtin corner cases mirror the interpreter (DESIGN.md §2.5)",
+            "object iteration order is ascending key order (defined by fix 00dd747)",
+            "functions are lexically scoped: a body sees its parameters and module-level names only (fix 0c128f3)",
+        ],
+        "units": [
+            {"name": "c01-lang", "bin": "c01", "build": "harness:c01", "run": "^TestC01Lang$", "quick": 60000, "thorough": 3000000},
+        ],
+    },
     "C20": {
         "level": "exploration",
         "manifest": {
